@@ -64,6 +64,11 @@ def make_runs(tr, n):
         runs.append(dict(id=i + 1, sub=rng.randrange(1 << 30), ncalls=rng.choice([2, 2, 3, 5, 10, 40, 200 if tr == "thorough" else 60]),
                          uid=rng.choice([0, 0, U]), devlog=rng.choice(["live", "live", "absent"]), stdin=rng.choice(["null", "pty", "closed", "pipe"]),
                          ctty=rng.random() < 0.3))
+    for r in runs:
+        # more caller state that has to survive: blocked signals (SIGPIPE among them), ignored signals, a stale errno
+        r["sigblock"] = [sg for sg in (13, 10, 17, 1) if rng.random() < 0.25]
+        r["sigign"] = [sg for sg in (13, 1, 12) if rng.random() < 0.15]
+        r["preerrno"] = rng.choice([0, 0, 34, 4, 2, 22])
     return runs
 
 
@@ -105,6 +110,11 @@ def script_fn(r, B, s):
     if r["uid"]:
         s.raw("uid %d %d %d" % (r["uid"], r["uid"], r["uid"]))
     s.raw("envset " + Script.vec([b"HOME=/root", b"LOGNAME=lg", b"TZ=UTC", b"BIG=" + b"B" * 3000]))
+    for sg in r["sigblock"]:
+        s.raw("sigblock %d" % sg)
+    for sg in r["sigign"]:
+        s.raw("sigign %d" % sg)
+    s.raw("preerrno %d" % r["preerrno"])
     s.conf(conf)
     base = r["id"] * 1000
     c = calls[0]
@@ -148,7 +158,7 @@ def check_fn(r, evs, B):
     B.count("runs")
     first_live = None
     last_live = None
-    for k in range(0, r["ncalls"] + 1):
+    for k in [999] + list(range(0, r["ncalls"] + 1)):     # 999 = the fixed first warm-up call: everything but the heap is judged there too
         t = byid.get(base + k, {})
         if set(t) != {"BEGIN", "REAL", "END"}:
             raise Harness("incomplete events for run %d call %d: %s" % (r["id"], k, sorted(t)))
@@ -168,7 +178,7 @@ def check_fn(r, evs, B):
         hp = rl.get("heap")
         if hp is None:
             raise Harness("allocator monitor not loaded")
-        if k >= 1:
+        if 1 <= k < 999:
             B.count("heap_samples")
             if hp["since_mark_snoopy"] > 0:
                 fr = symbolize(B.bld, hp["blocks"][0]["bt"]) if hp["blocks"] else []
@@ -293,6 +303,70 @@ def inject_run(arg):
     return F, st
 
 
+def fork_arm(bld, tr, F, tot):
+    """third arm: the child of a fork() made while other threads of the process are inside the wrapper.  Those threads do
+    not exist in the child; what the library holds for them must not stay allocated there.  Measured with the allocator
+    monitor: Snoopy's live blocks in the child after its own complete call vs. the steady state of a single-threaded
+    process after one complete call (same process, before the threads start)."""
+    from vlib.common import mkwork, rmwork
+    from vlib.drive import pmap
+    from checks.c10 import run_fork
+    root = mkwork("c16f")
+    probe = run_fork((bld, 99999, "in-lock", 1, "file", 0, root, 0, True))
+    if "points_seen" not in probe or probe["points_seen"] < 4:
+        rmwork(root)
+        raise Harness("fork arm: could not discover stop points: %s" % probe)
+    npoints = probe["points_seen"]
+    jobs = []
+    idx = 1
+    for k in range(1, npoints + 1):
+        for victims in ((1, 3) if tr == "quick" else (1, 2, 3, 4)):
+            jobs.append((bld, k, "any", victims, "file", 0, root, idx, True)); idx += 1
+    for job, ev in zip(jobs, pmap(run_fork, jobs, 12)):
+        tot["fork.scenarios"] = tot.get("fork.scenarios", 0) + 1
+        if ev.get("harness_timeout") or ev.get("no_event") or ev.get("parked", 0) < 1 or not ev.get("child_done"):
+            tot["fork.inconclusive"] = tot.get("fork.inconclusive", 0) + 1
+            continue
+        ch, base = ev.get("child_heap"), ev.get("heap_base", -1)
+        if ch is None or base is None or base < 0:
+            tot["fork.inconclusive"] = tot.get("fork.inconclusive", 0) + 1
+            continue
+        tot["fork.child_heap_samples"] = tot.get("fork.child_heap_samples", 0) + 1
+        wit = {k: v for k, v in ev.items() if k not in ("records", "child_blocks")}
+        desc = "child forked while %d other thread(s) were stopped inside the wrapper (%s, point %d)" % (ev["victims"], ev["stop_kind"], ev["stop_at"])
+        # (a) what the library keeps a reference to: its thread repository must hold the child's own thread only
+        recs = [x for x in ev.get("records", []) if x.startswith("/bin/CHILDz|")]
+        if len(recs) == 1:
+            tot["fork.child_records"] = tot.get("fork.child_records", 0) + 1
+            if recs[0].split("|")[-1] != "1":
+                F.violation("C16:fork-child:entries-of-threads-that-do-not-exist-kept", "%s: the library tracks %s threads in the child during its call, the child has one" % (
+                    desc, recs[0].split("|")[-1]), wit)
+        # (b) strings owned by a configuration (allocated by the config file value handlers) are referenced from a repository
+        # entry from the moment they are allocated until the owner's cleanup frees them: one that is still live after the
+        # child's own complete call belonged to an entry of a vanished thread and was not released with it.  Blocks a vanished
+        # thread referenced from its stack only (message buffers, parser line buffers) cannot be released by anybody: counted,
+        # not judged.
+        # Judged only when the single other thread stayed parked at its stop point during the fork (a thread running freely
+        # can be inside a value handler holding a temporary copy)
+        owned, temp = [], 0
+        still = ev["victims"] == 1 and not ev.get("fork_waited_for_lock")
+        if still:
+            tot["fork.child_heap_judged"] = tot.get("fork.child_heap_judged", 0) + 1
+        for b in (ev.get("child_blocks", []) if still else []):
+            fr = symbolize(bld, b["bt"])
+            inner = next((f for f in fr if f and not f.startswith("?")), "?")
+            if inner.startswith("snoopy_configfile_parseValue"):
+                owned.append((b["sz"], fr[:3]))
+            else:
+                temp += 1
+        tot["fork.child_stack_only_temporaries"] = tot.get("fork.child_stack_only_temporaries", 0) + temp
+        if owned:
+            F.violation("C16:fork-child:configuration-strings-of-vanished-threads-retained",
+                        "%s: %d configuration string(s) of the other threads are still allocated in the child after its own complete call: %s" % (desc, len(owned), owned[:3]),
+                        dict(wit, blocks=owned))
+    rmwork(root)
+
+
 def rmtree(d):
     import shutil
     shutil.rmtree(d, ignore_errors=True)
@@ -341,6 +415,9 @@ def main():
         for k, x in st.items():
             tot["inject." + k] = tot.get("inject." + k, 0) + x
     rmwork(root)
+    fork_arm(bld, tr, F, tot)
+    if (tot.get("fork.child_heap_judged", 0) == 0 or tot.get("fork.child_records", 0) == 0) and F.n_unlisted() == 0:
+        raise Harness("fork arm observed nothing: %s" % tot)
     if (tot.get("inject.fired", 0) == 0) and F.n_unlisted() == 0:
         raise Harness("injection arm: no injected fault fired: %s" % tot)
     for v in builds:
